@@ -4,7 +4,7 @@ CONSTANTS
   PathOrder <- StdPathOrder
   IgnoreVocab <- StdIgnoreVocab
   Bug = "none"
-  MaxSteps = 6
+  MaxSteps = 5
   MaxEditRun = 3
   Acts = {"Write", "Chmod", "Delete", "FileToDir", "DirToFile", "Symlink", "Snapshot", "CheckOut"}
   EditPaths <- AllEditPaths
